@@ -43,6 +43,11 @@ CHECKS["C04"] = ("FOLD/TRUTH rules on the antipodal fold (index array in Boolean
 CHECKS["C15"] = ("abstract interpretation of the volume estimators (equal-share formulas, hull.area/2), selector/axis role check of the helper-point assignment, polarity agreement of the hemisphere filters, selection of half volumes at the upper indices, model dispatch threshold",
     "Structural clauses: pi^2/N and 4*pi/N for N<4 with threshold 4, factor 1/2 on the hull surface measure, nearest-centre assignment along the right axis, same hemisphere predicate for helper points and centres, half volumes = first N of the 2N double-cover volumes. The 12%/30% tolerance bands are numerical and not decided.", "6 C15")
 
+CHECKS["C08"] = ("reseed-dominance analysis (call-graph fixpoint of drawing functions + CFG dominators), getter-purity classification of attribute stores (IDEMP), who-may-write / prefix rules on the polytope index (OWN/ORD), hash-container iteration and mutable-default scans",
+    "Structural clauses: every random draw on grid/geometry paths is dominated by a constant reseed (independence of history and of the global generator state), getters are pure/init-once/idempotent, permanent indices are written once and get_nodes(N) is a prefix, caches are validated by node count, no hash-randomised order reaches results. Bit-identity of scipy/qhull across processes is trusted, not decided.", "6 C08")
+CHECKS["C18"] = ("who-may-write (OWN) and ordering (ORD) rules over polytopes.py, reseed dominance of the index shuffle",
+    "Index permanence and level ordering for all levels and histories, projection = normalised node at the only node-adding site, prefix property of get_nodes, index-ordered half-hypercube selection, deterministic shuffle. Equality with the ideal lattice, negation closure and antipodal uniqueness are numerical and not decided.", "6 C18")
+
 NOT_APPLICABLE = {
     "C06": "Cartesian Voronoi cell geometry is produced by qhull and floating-point predicates (polygon vertex ordering, F2); no static abstract domain in reach separates the failing coordinate configurations; the one structural clause is too thin to claim the property (DESIGN.md section 6, C06).",
     "C07": "distinctness/separation/hemisphere membership of computed coordinates are numerical facts; the row-count and unit-norm clauses are already run-time assertions, so a static restatement would only test the presence of those asserts (DESIGN.md section 6, C07).",
